@@ -123,6 +123,10 @@ impl Tracer {
                 )?;
 
                 if let Some((pid, sign)) = self.inject_signal_queue.front().copied() {
+                    if QUIET_SIGNALS.contains(&sign) {
+                        // a quiet signal never stops the debugee, inject it at the next iteration
+                        continue;
+                    }
                     // if there are more signals - stop debugee again
                     self.group_stop_interrupt(tcx, Pid::from_raw(-1))?;
                     return Ok(StopReason::SignalStop(pid, sign));
